@@ -2,6 +2,7 @@
 from vals import *
 from llir import INT
 INT8 = INT(8)
+INT64_ = INT(64)
 
 class Obj:
     __slots__ = ('size', 'cells', 'zero', 'freed', 'name', 'pre', 'allow', 'shared')
@@ -89,7 +90,10 @@ class Memory:
                 sh = (off - k)*8
                 if isinstance(cv[2], int): return iv(ty.a, cv[2] >> sh)
                 return iv(ty.a, z3.Extract(sh + ty.a - 1, sh, cv[2]))
-        # wide integer load assembled from byte/short cells (all must be integers)
+        # wide integer load assembled from byte/short cells (all must be integers); a double is assembled through its bit pattern
+        if ty.k == 'double':
+            r = s.load(st, INT64_, p)
+            return s.coerce(r, ty)
         if ty.k == 'int':
             parts = []; pos = off
             while pos < off + n:
@@ -132,12 +136,12 @@ class Memory:
             if v[0] == 'i' and isinstance(v[2], int): return ('f', bits2d(v[2]))
             if v[0] == 'i' and s.ex.mode != 'real': return ('f', z3.fpBVToFP(v[2], F64))
             if v[0] == 'undef': return v
-        elif k == 'float' and v[0] == 'f': return v
+        elif k in ('float', 'x86_fp80') and v[0] in ('f', 'undef'): return v
         raise Unsupported('coerce %r to %r' % (v[0], ty))
 
     def zero_of(s, ty):
         if ty.k == 'int': return iv(ty.a, 0)
-        if ty.k in ('double', 'float'): return ('f', 0.0)
+        if ty.k in ('double', 'float', 'x86_fp80'): return ('f', 0.0)
         if ty.k == 'ptr': return NULL
         raise Unsupported('zero of %r' % ty)
 
